@@ -160,8 +160,10 @@ impl AsyncFileSystem for AsyncOverlayFS {
     async fn append_file(&self, path: &str) -> VfsResult<Box<dyn Write + Send + Unpin>> {
         let write_path = self.write_path(path)?;
         if !write_path.exists().await? {
+            // resolve the file first: a missing target must not materialise its parent directories
+            let read_path = self.read_path(path).await?;
             self.ensure_has_parent(path).await?;
-            self.read_path(path).await?.copy_file(&write_path).await?;
+            read_path.copy_file(&write_path).await?;
         }
         write_path.append_file().await
     }
